@@ -270,7 +270,9 @@ func h6FileRuntime(env *Env, c *H1Cfg, hr *h1Run, stats simrt.Stats, kept []int)
 			env.Hit("h6.stage_env_checked")
 		}
 		whole := w1 <= stop && fe.MaxIterations == 0
-		if whole && st.Def != "" && hr.Snap.Drop == 0 && (hr.HaveResult || hr.HaveCounts) {
+		// (enough workers for the largest per-tick request of the generated stages, so that no start is pushed across
+		// the end of an occurrence's window by a busy pool)
+		if whole && st.Def != "" && hr.Snap.Drop == 0 && fe.Concurrency >= 8 && (hr.HaveResult || hr.HaveCounts) {
 			if prevBegun, seen := twinBegun[st.Def]; seen && prevBegun != begun {
 				env.Violate("C15", "twin-stages-differ", "file/twin/"+st.Mode, "stage %s (%s for %s) is defined twice in the file: its first occurrence started %d iterations, this one %d",
 					st.ID, st.Mode, dur(st.DurNs), prevBegun, begun)
